@@ -30,6 +30,7 @@ func c09Contexts(role string, neighbour string) []c09Ctx {
 			{"canonical vs variant allowed", "GPL-3.0 WITH \x02", []string{"GPL-2.0+ WITH " + hole}},
 			{"inside tree", "(MIT WITH " + hole + " AND MIT) OR LicenseRef-a", []string{"MIT", "MIT WITH \x02"}},
 			{"alone (must stay invalid)", hole, []string{"MIT"}},
+			{"after a rewritten -or-later+ prefix", "Apache-2.0-or-later+ AND MIT WITH " + hole, []string{"Apache-2.0", "MIT WITH \x02"}},
 		}
 	}
 	l := []c09Ctx{
@@ -42,6 +43,8 @@ func c09Contexts(role string, neighbour string) []c09Ctx {
 		{"allowed entry vs canonical", "\x02", []string{hole}},
 		{"allowed entry with WITH", "\x02 WITH Bison-exception-2.2", []string{"Zlib", hole + " WITH Bison-exception-2.2"}},
 		{"allowed entry vs Zlib", "Zlib", []string{hole}},
+		{"after a rewritten -or-later+ prefix", "Apache-2.0-or-later+ AND " + hole, []string{"Apache-2.0", "\x02"}},
+		{"after two rewritten prefixes", "(MIT-or-later OR Zlib-or-later+) AND " + hole + " AND LicenseRef-a", []string{"MIT", "LicenseRef-a", "\x02"}},
 	}
 	for _, nb := range strings.Fields(neighbour) {
 		l = append(l, c09Ctx{"allowed entry vs family member " + nb + "+", nb + "+", []string{hole}},
